@@ -26,19 +26,26 @@ func valueFieldByName(v reflect.Value, fields []string) (out reflect.Value, ok b
 		v = v.Elem()
 	}
 
+	// a path can only go through structures
+	if len(fields) == 0 || v.Kind() != reflect.Struct {
+		return out, false
+	}
+
 	out = v.FieldByName(fields[0])
+	if !out.IsValid() {
+		return out, false
+	}
 
 	// if pointer we dereference
 	if out.Kind() == reflect.Ptr {
 		if out.IsZero() {
-			out = reflect.New(out.Type().Elem())
+			out = reflect.New(out.Type().Elem()).Elem()
 		} else {
 			out = out.Elem()
 		}
-		return valueFieldByName(out, fields[1:])
 	}
 
-	if out.Kind() == reflect.Struct && len(fields) > 1 {
+	if len(fields) > 1 {
 		return valueFieldByName(out, fields[1:])
 	}
 
